@@ -62,6 +62,7 @@ WithBody(f, b) == IF Naive THEN Lam1(f.p[1], b) ELSE [f EXCEPT !.a[1] = b]
 (* simultaneous binding of a called lambda's parameters: Python's rules, or no rule applies *)
 CallBindable(c) ==
     LET lam == c.a[1]  np == Len(lam.p)  nd == lam.n  npos == c.n IN
+    /\ PlainLam(lam)          \* positional-only / keyword-only / star parameters: the call stays a call
     /\ npos <= np
     /\ \A i \in 1..Len(c.p) : IndexOf(lam.p, c.p[i]) > npos
     /\ \A i, j \in 1..Len(c.p) : i # j => c.p[i] # c.p[j]
